@@ -27,6 +27,7 @@ PLAN = {
 
 _CLASSES = None
 _PRISTINE = None
+_SUB_COPIES = {}  # pristine deep copies of container default sub-circuits (harness-side restore)
 
 
 def setup():
@@ -38,6 +39,8 @@ def setup():
     _CLASSES = dict(get_elements(private=True))
     _PRISTINE = {}
     for sym, cls in _CLASSES.items():
+        if issubclass(cls, Container):
+            _SUB_COPIES[sym] = {k: _copy.deepcopy(v) for k, v in cls._subcircuit_default_value.items()}
         _PRISTINE[sym] = {
             "value": dict(cls._parameter_default_value),
             "lower": dict(cls._parameter_default_lower_limit),
@@ -92,6 +95,11 @@ def restore_class_defaults():
             if d != p[key]:
                 d.clear()
                 d.update(p[key])
+        if p["sub"] is not None:
+            cur = {k: (v.to_string(17) if v is not None else None) for k, v in cls._subcircuit_default_value.items()}
+            if cur != p["sub"]:
+                for k, v in _SUB_COPIES[sym].items():
+                    cls._subcircuit_default_value[k] = _copy.deepcopy(v)
 
 
 def cleanup(state):
